@@ -10,6 +10,25 @@ TABLE = {
                 "raw (proxy-free) calls are compared end to end. Held on the executions observed, not proven for all programs.",
         "note": "Trusted base: torch.autograd VJPs (cross-checked against finite differences in the thorough tier), the program generator.",
     },
+    "C02": {
+        "level": "exploration",
+        "design_ref": "DESIGN.md §4 C02",
+        "technique": "runtime monitor: recording-aggregator proxy + .grad snapshots vs two-stage torch.autograd reference on twin and cut-twin graphs",
+        "text": "Random trunk/heads programs are run through mtl_backward() with explicit or defaulted parameter lists in every container "
+                "type (incl. one-shot generators); the matrix seen by a recording proxy must have row i = d losses[i] / d shared (through the "
+                "features), shared .grad deltas equal their slice of the returned vector bit for bit, task parameters receive the sum over "
+                "listing tasks of their own loss gradient. Held on the executions observed.",
+        "note": "Trusted base: torch.autograd on twin graphs; features are mutually independent values (no feature is an ancestor of another).",
+    },
+    "C05": {
+        "level": "exploration",
+        "design_ref": "DESIGN.md §4 C05",
+        "technique": "runtime monitor: differential execution against torch.autograd.backward on a bit-identical twin graph",
+        "text": "The same random program is instantiated twice; torchjd with Constant(w)/Sum/Mean drives one copy, torch.autograd.backward "
+                "with grad_tensors=w the other; all .grad fields (None pattern and values) are compared; same for mtl_backward's shared and "
+                "task parameters. Held on the executions observed.",
+        "note": "Trusted base: torch.autograd.backward (the oracle the property names).",
+    },
 }
 _ALL = [f"C{i:02d}" for i in range(1, 21)]
 NOT_APPLICABLE = {p: "check not built yet in this session (planned, see DESIGN.md §4); not claimed until its monitor runs clean"
